@@ -1,6 +1,6 @@
 """C09 — static rules enforced exactly: ill-formed rejected, well-formed accepted.
 
-Three streams, all through `nsverif lang` (the real Lexer -> Parser -> Resolver) and, for every
+Four streams, all through `nsverif lang` (the real Lexer -> Parser -> Resolver) and, for every
 program that parses, through the extracted `StaticRules.check` (`nsmodel langc09`) on the AST
 the harness dumped:
 
@@ -19,6 +19,17 @@ the harness dumped:
   C  hand-written corpus: the keyed defects (DESIGN section 7 row 9, `add` with a dynamic
      operand, return type inferred in the enclosing scope, method arity on a dynamic
      receiver) and neighbouring shapes, each with the verdict the documented rules give.
+  D  the typing matrix, whole, on every run (1754 cells): every static type (number, string,
+     boolean, array, null, process_command, process_result; literal, declared, uninitialised
+     `make`, result of a function without `return`) x every method of every family (own
+     family accepted, foreign / unknown rejected, arity of each method, dynamic receivers),
+     every binary operator x every pair of operand types, unary operators / `if` / `jasi`
+     conditions x every type, index and index assignment (base x index type), typed built-in
+     arguments (join, cwd, env, timeout_ms, command) x every type.  The expected verdict comes
+     from the documented families and operand rules written down in this module.  Stream B's
+     typing injections draw rejecting cells of the matrix (random slot / nesting context) and
+     every program of stream A carries two well-typed cells at random slots (guarded by
+     `if to say (false)`: checked, never run).
 
 Correspondence: acceptance and the multiset of error diagnostics (message) of the resolver
 must equal `accepted` and the multiset of `category` of the model's violations."""
@@ -988,7 +999,7 @@ def correspond(env, searching=False, model=True):
     failures, disagreements, samples = [], [], []
     nontrivial = set()
     evaluations = 0
-    accepted_wf = rejected_inj = compared = matrix_ok = 0
+    accepted_wf = rejected_inj = compared = matrix_ok = tie_differs = 0
     shard = 1000
     for s0 in range(0, len(cases), shard):
         part = cases[s0:s0 + shard]
@@ -997,10 +1008,16 @@ def correspond(env, searching=False, model=True):
             if r is not None and r.get("ast"):
                 compared += 1
             if o is not None:
-                key = c.get("key") or ("%s:%s" % (c["stream"] + (":" + c["kind"] if c.get("kind") else ""), common.chash(c["source"])))
+                if c["stream"] == "matrix":
+                    key = "matrix:" + c["kind"]
+                else:
+                    key = c.get("key") or ("%s:%s" % (c["stream"] + (":" + c["kind"] if c.get("kind") else ""), common.chash(c["source"])))
+                if d is not None:
+                    tie_differs += 1
                 if not any(f["key"] == key for f in failures) and len(failures) < 40:
                     small = shrink(env, c)
                     failures.append({"key": key, "case": jsonable(small), "observed": o,
+                                     "model_vs_implementation": d or "agree",
                                      "diags": [diag_tuple(x) for x in (r or {}).get("diags", [])][:6]})
                 continue            # a keyed oracle failure is reported once, as a failure
             if d is not None:
@@ -1037,7 +1054,7 @@ def correspond(env, searching=False, model=True):
                   "injections_in_function_inside_loop": stats["fn_in_loop_injections"], "no_position_for_kind": stats["no_position"],
                   "generator_stats": stats["gen"], "corpus_cases": len(CORPUS),
                   "matrix_cells": stats.get("matrix_cells"), "matrix_cells_well_typed": stats.get("matrix_accepting"),
-                  "matrix_cells_as_expected": matrix_ok, "wellformed_enriched_with": stats.get("enriched_with")},
+                  "matrix_cells_as_expected": matrix_ok, "oracle_failures_where_model_tie_differs_too": tie_differs, "wellformed_enriched_with": stats.get("enriched_with")},
     }
 
 
